@@ -181,6 +181,9 @@ def f50():
 
 case("F50 lazy datetime labels with a block of NaT", f50, lambda r: r == [6.0, 3.0, 5.0])
 
+# F51
+case("F51 several groupers, a label combination that never occurs", lambda: groupby_reduce(np.arange(1.0, 5), np.array([1, -2, 1, -2]), np.array([0, 0, 0, -3]), func="sum", fill_value=-5)[0].tolist(), lambda r: r == [[4.0, 2.0], [-5.0, 4.0]])
+
 bad = 0
 for name, verdict in results:
     print(f"{name:55s} {verdict}")
